@@ -142,7 +142,9 @@ class Fixture:
                 "Th": a[: len(a) // 2],
                 # cut shortly before the end: inside the data of the last line for stream formats / inside the member data for
                 # tar (whose last 10 KiB are padding)
-                "Te": a[: len(a) - (20011 if fmt in TAR else 2000)],
+                # bzip2 releases whole blocks only: where its last block starts depends on the content, so for the bz2 based
+                # formats the cut is made well before the compressed data of the last line (output always ends before it)
+                "Te": a[: len(a) - (200000 if fmt in ("bz2", "tar.bz2") else 20011 if fmt in TAR else 2000)],
                 "J": self.other,
                 "E": b"",
             }
@@ -793,11 +795,15 @@ def run_once(fx, d, p, script, crash=None, workdir=None):
                     os._exit(code)
             _, st = os.waitpid(pid, 0)
             code = os.waitstatus_to_exitcode(st)
-            if code != 77:
-                raise tlc.MachineryError("kill injection at event %s did not fire (child exit %s)" % (crash["event"], code))
-            res["end"] = "crashed"
-            with open(ef, "r", encoding="utf-8") as f:
-                obs.events = [(sn, n) for sn, n in json.load(f)]
+            if code == 77:
+                res["end"] = "crashed"
+                obs.fired = True
+                with open(ef, "r", encoding="utf-8") as f:
+                    obs.events = [(sn, n) for sn, n in json.load(f)]
+            elif code == 0:
+                res["end"] = "not-crashed"  # the run ended before the call at which it was to be killed
+            else:
+                raise tlc.MachineryError("forked preparation run failed (child exit %s)" % code)
         else:
             body()
     finally:
@@ -810,6 +816,7 @@ def run_once(fx, d, p, script, crash=None, workdir=None):
             net.download_http.__kwdefaults__["sleep"] = saved[3]["sleep"]
         _time.sleep = real_sleep
     res["events"] = obs.events
+    res["fired"] = obs.fired
     res["debug"] = obs.debug
     res["nreq"] = len(pool.served)
     res["sleeps"] = [int(s) for s in sleeps]
